@@ -11,7 +11,10 @@ import random
 import sys
 import time
 
-sys.path.insert(0, "/repo") if "/repo" not in sys.path else None
+import os
+
+_REPO = os.environ.get("HV_REPO", "/repo")     # HV_REPO=<worktree> runs the families against another checkout
+sys.path.insert(0, _REPO) if _REPO not in sys.path else None
 
 
 def main(argv):
